@@ -44,6 +44,9 @@ checks = {
  "C09": ("model_checking", "explicit-state search over all sequences (depth 3 quick / 4 thorough) of (event, auth state) pairs through ONE reused allower context (in-package bridge), each step compared with a fresh Allowed; plus, for every cell of the auth rule space, every insertion order of the auth events, removal of un-needed events, only-needed state, added unrelated state, repetition, and the auth events AddAuthEvents selects",
          "Every history through the reused checker up to the depth bound and every presentation of every cell is executed on the real code; the oracle is metamorphic (verdict must equal the fresh / baseline verdict).",
          "the reuse alphabet (18-19 pairs) fixes which cached fields can interact", "4/C09"),
+ "C10": ("model_checking", "bounded-exhaustive generation of room DAG histories (every pair / triple of honest branches of <=2 actions from a 25-27 action alphabet off a base room) x timestamp and event-ID tie-break patterns x algorithms v1 / v2 / v2.1, resolved by the real entry points and by an independent reference implementation (refstate over refauth); resolved event-ID sets must be equal",
+         "Every generated history within the branch-length bound is resolved on the real code and compared with an independent implementation of the three algorithms; a mismatch reports the reference's intermediate stages.",
+         "refstate/refauth are the definition (spec + DESIGN.md 5.2); histories are two- and three-way forks of short branches", "4/C10, 5.2"),
 }
 pending = {}
 props = [json.loads(l) for l in open('/verif/properties.jsonl')]
